@@ -264,22 +264,24 @@ def to_json(obj: Union[SubclassJSONSerializer, Any]) -> JSON_RETURN_TYPE:
     :return: The JSON string
     """
 
-    if isinstance(obj, leaf_types):
-        return obj
-
-    if isinstance(obj, list_like_classes):
-        return [to_json(item) for item in obj]
-
+    # an object's own serializer and a serializer registered for exactly its type take precedence over the
+    # generic handling of JSON leaf types and list-like containers, which they may subclass
     if isinstance(obj, SubclassJSONSerializer):
         return obj.to_json()
 
     registered_json_serializer = JSONSerializableTypeRegistry().get_serializer(
         type(obj)
     )
-    if not registered_json_serializer:
-        raise ClassNotSerializableError(type(obj))
+    if registered_json_serializer:
+        return registered_json_serializer(obj)
 
-    return registered_json_serializer(obj)
+    if isinstance(obj, leaf_types):
+        return obj
+
+    if isinstance(obj, list_like_classes):
+        return [to_json(item) for item in obj]
+
+    raise ClassNotSerializableError(type(obj))
 
 
 # %% UUID serialization functions
